@@ -2,6 +2,7 @@
     failures and samples; turns them into exit code, VIOLATION / KNOWN-FINDING lines and evidence.
 """
 
+import glob
 import json
 import os
 import subprocess
@@ -110,6 +111,8 @@ class Context:
         for ident, items in sorted(known.items()):
             print(f"KNOWN-FINDING: property={self.prop} {ident} {findings.describe(ident)} ({len(items)} cases)")
         replay_paths = []
+        for stale in glob.glob(os.path.join(VERIF, "replays", f"{self.prop}_*.json")):
+            os.unlink(stale)
         if violations:
             os.makedirs(os.path.join(VERIF, "replays"), exist_ok=True)
             by_clause = {}
